@@ -24,7 +24,7 @@ from ..models import lazy_need as M
 from .c02_stages import STAGES, ORDER
 from .util import drop_candidates
 
-HANG_SECONDS = 20
+HANG_SECONDS = 60
 
 
 class _Hang(BaseException):
